@@ -252,11 +252,12 @@ def run(rep, tier, seed):
                   "the analysis pass is compared with the denotation only through the monitor")
     common.proof_coverage(rep, PID, audit, tier,
                           "lexer (Model/Lexer.v); numeric_value, parse_quantity (regular and advanced path), Text assembly, "
-                          "comp_body / note / parse_alias / ingredient of Model/Parser.v; the printers of "
-                          "coq/Model/Printer.v are definitions of the statements, the Python printer checks/c01_gen.py is "
-                          "a separate artefact making the same spelling choices; single-word / modifier / alias / note "
-                          "forms, cookware, timers, steps, blocks, documents and the analysis pass are compared and "
-                          "monitored, not proved")
+                          "comp_body / note / parse_alias / ingredient / cookware / timer, step_loop / parse_step, "
+                          "metadata_entry, section, parse_block / run_block and (through C14_full_blocks) events of "
+                          "Model/Parser.v; the printers of coq/Model/Printer.v are definitions of the statements, the Python "
+                          "printer checks/c01_gen.py is a separate artefact making the same spelling choices; modifier "
+                          "characters, intermediate-reference data, `>` text blocks, the cut of a printed document into "
+                          "blocks, front matter and the analysis pass are compared and monitored, not proved")
     rep.coverage.update({
         "evaluations": stats["parses"] + nc1 + nc2,
         "distinct_nontrivial": len(distinct),
